@@ -82,6 +82,7 @@ structure TranscOK (α : Type) [Field α] [LinearOrder α] [Transc α] : Prop wh
   sqrt_pos : ∀ x : α, 0 < x → 0 < Transc.sqrt x
   tan_atan : ∀ x : α, Transc.tan (Transc.atan x) = x
   pi_ne : (Transc.pi : α) ≠ 0
+  cos_sin : ∀ x : α, Transc.cos x * Transc.cos x + Transc.sin x * Transc.sin x = 1
 
 theorem deg180_ne : (deg180 : α) ≠ 0 := by
   unfold deg180; positivity
